@@ -1,6 +1,7 @@
 package main
 
 import (
+	"runtime/pprof"
 	"encoding/json"
 	"fmt"
 	"go/ast"
@@ -53,6 +54,14 @@ func main() {
 	case "check":
 		if len(os.Args) < 4 {
 			usage()
+		}
+		if pf := os.Getenv("VERIF_CPUPROFILE"); pf != "" {
+			f, _ := os.Create(pf)
+			pprof.StartCPUProfile(f)
+			rc := runCheck(os.Args[2], os.Args[3], false)
+			pprof.StopCPUProfile()
+			f.Close()
+			os.Exit(rc)
 		}
 		os.Exit(runCheck(os.Args[2], os.Args[3], false))
 	case "lock":
@@ -773,6 +782,20 @@ func (e *Exec) smtFor2(o *Obligation) (string, string) {
 		// satisfiability question: answer it on the quantifier-free weakening (instances included); with
 		// quantifiers present no solver reports "sat". This shows the hypotheses are not plainly contradictory.
 		inst := ic.instantiate(proc, 2)
+		if sizeOf(inst) > 5<<20 {
+			// too many instances: one round with a small per-quantifier budget (the weakening stays a weakening)
+			ic2 := &instCtx{sortOf: map[string]string{}, budget: 24}
+			var proc2 []*Sx
+			for _, h := range hyps {
+				flattenAssert(ic2.pos(h), &proc2)
+			}
+			flattenAssert(ic2.neg(parseSx(o.Goal)), &proc2)
+			inst2 := ic2.instantiate(proc2, 1)
+			if sizeOf(inst2) > 5<<20 {
+				inst2 = nil
+			}
+			ic, proc, inst = ic2, proc2, inst2
+		}
 		var ground strings.Builder
 		ground.WriteString(uninterpretRec(head.String()))
 		for _, d := range ic.decls {
@@ -787,7 +810,11 @@ func (e *Exec) smtFor2(o *Obligation) (string, string) {
 		ground.WriteString("(check-sat)\n")
 		return ground.String(), ""
 	}
+	t0 := time.Now()
 	inst := ic.instantiate(proc, 3)
+	if os.Getenv("VERIF_PROF") != "" {
+		fmt.Fprintf(os.Stderr, "inst %s: %d asserts -> %d instances (%d bytes) in %v\n", o.Name, len(proc), len(inst), sizeOf(inst), time.Since(t0))
+	}
 	if sizeOf(inst) > 5<<20 {
 		// too many instances: retry with one round and a small per-quantifier budget; if that is still too big,
 		// leave the quantifiers to the solvers
